@@ -924,3 +924,20 @@ Qed.
 
 Lemma parse_type_ref_total : forall fixed s, exists r, parse_type_ref fixed s = Ok r.
 Proof. intros fixed s. apply parse_total. lia. Qed.
+
+(* ---- a concrete tracker for the non-vacuity examples of Props/C15.v ---- *)
+Definition ex_add (tr : list bytes) (p : bytes) : list bytes := tr ++ [p].
+Fixpoint ex_last_seg (acc p : bytes) : bytes :=
+  match p with
+  | [] => acc
+  | c :: r => if Ascii.eqb c "/"%char then ex_last_seg [] r else ex_last_seg (acc ++ [c]) r
+  end.
+Definition ex_local (tr : list bytes) (p : bytes) : bytes := ex_last_seg [] p.
+
+
+Lemma ex_tracker_hyp :
+  (forall tr p qs, ex_local (fold_left ex_add qs (ex_add tr p)) p = ex_local (ex_add tr p) p) /\
+  (forall tr p q, In q (ex_add tr p) <-> q = p \/ In q tr).
+Proof.
+  split; [reflexivity|]. intros tr p q. unfold ex_add. rewrite in_app_iff. cbn [In]. intuition congruence.
+Qed.
